@@ -15,10 +15,10 @@ import itertools
 import re
 
 from ..src import AnalysisError, loc, src, dotted, call_attr, param_names, body_without_doc, walk_local, qualname, bind_call
-from .. import pm, absint
+from .. import pm, absint, emit
 from ..callgraph import CallGraph
 from ..lexer import RegexNFA, included, prefix_conflict, intersect_witness
-from .common import AssocModel, exception_class_name
+from .common import AssocModel, exception_class_name, type_name_atoms
 from . import lexrules
 from .c12 import MUTATORS
 
@@ -66,6 +66,72 @@ def _literal_chain(fn, var_names):
     return out
 
 
+def reader_table(repo):
+    '''abstract execution of deserialize_value: for every type and every shape of token text the grammar can deliver,
+    the expression returned (in terms of the parameter holding the text).  {(type, shape): Outcome}'''
+    dv = repo.func(L + 'deserialize_value')
+    ps = param_names(dv, skip_self=False)
+    TY, VAL = ps[0], ps[1]
+    tatoms, _ = type_name_atoms(TY)
+
+    def shape(name):
+        return lambda e, s, tr: s['shape'] == name
+    atoms = [('%s.isdigit()' % VAL, lambda e, s, tr: s['shape'] == 'digits'),
+             ("'\"' in %s" % VAL, lambda e, s, tr: s['shape'] == 'dquoted'),
+             ("'\"' not in %s" % VAL, lambda e, s, tr: s['shape'] != 'dquoted'),
+             ("%s.upper() == 'FALSE'" % VAL, shape('false')), ("%s.upper() == 'TRUE'" % VAL, shape('true')),
+             ("%s.lower() == 'false'" % VAL, shape('false')), ("%s.lower() == 'true'" % VAL, shape('true')),
+             ("%s.upper() in _L" % VAL, lambda e, s, tr: None)] + tatoms
+    it = absint.Interp(dv, atoms)
+    it.skip = lambda st: isinstance(st, ast.Try)
+    out = {}
+    for ty in sorted(TYPES) + ['SOMETHING_ELSE']:
+        for sh in ('digits', 'signed', 'fraction', 'squoted', 'dquoted', 'true', 'false'):
+            state = {'type': ty, 'declared_case': True, 'shape': sh}
+            o, tr = _run_through_try(it, dv, state)
+            out[(ty, sh)] = o
+    return dv, VAL, out
+
+
+def _run_through_try(it, fn, state):
+    '''deserialize_value wraps its dispatch in try/except ValueError: the dispatch itself is what is interpreted'''
+    body = []
+    for st in fn.body:
+        if isinstance(st, ast.Try):
+            body.extend(st.body)
+        else:
+            body.append(st)
+    return it.run(state, body=body)
+
+
+def reader_table_lower(repo):
+    '''a lower-case spelling of the type name selects the same branch'''
+    dv = repo.func(L + 'deserialize_value')
+    ps = param_names(dv, skip_self=False)
+    tatoms, _ = type_name_atoms(ps[0])
+    it = absint.Interp(dv, [('%s.isdigit()' % ps[1], lambda e, s, tr: True), ("'\"' in %s" % ps[1], lambda e, s, tr: False),
+                            ("'\"' not in %s" % ps[1], lambda e, s, tr: True)] + tatoms)
+    o, tr = _run_through_try(it, dv, {'type': 'INTEGER', 'declared_case': False, 'shape': 'digits'})
+    return o.kind == 'return' and o.value is not None and pm.match('int(%s)' % ps[1], o.value) is not None
+
+
+def _default_value_types(df):
+    '''types for which MetaClass.default_value has a default (does not raise)'''
+    tatoms, cmp_lit = type_name_atoms(param_names(df)[0])
+    it = absint.Interp(df, tatoms + [('self.metamodel', lambda e, s, tr: True), ('self.metamodel is not None', lambda e, s, tr: True),
+                                     ('self.metamodel is None', lambda e, s, tr: False)])
+    out = set()
+    for ty in sorted(TYPES) + ['SOMETHING_ELSE']:
+        state = {'type': ty, 'declared_case': True}
+        o, tr = it.run(state)
+        if o.kind == 'return':
+            found, sel = absint.dict_lookup(o.value, lambda k, kn: cmp_lit({'_A': k, '_B': kn}, state, tr)) if o.value is not None else (False, None)
+            if found and sel is None:
+                continue
+            out.add(ty)
+    return out
+
+
 def types(ctx):
     repo = ctx.repo
     r = ctx.rule('C01-TYPES', 'writer, reader and metaclass agree on the type alphabet', floor=6, oracle='sibling tables')
@@ -74,10 +140,14 @@ def types(ctx):
     trans = _dict_keys(sv, 'transfer_fn')
     if nulls is None or trans is None:
         raise AnalysisError('%s: null_value / transfer_fn tables not found' % loc(sv))
-    dv = repo.func(L + 'deserialize_value')
-    dset = _literal_chain(dv, {'uty'})
+    dv, _val, table = reader_table(repo)
+    WRITTEN_SHAPE = {'BOOLEAN': 'digits', 'INTEGER': 'digits', 'REAL': 'fraction', 'STRING': 'squoted', 'UNIQUE_ID': 'dquoted'}
+    dset = set(t for t in TYPES if table[(t, WRITTEN_SHAPE[t])].kind == 'return' and table[(t, WRITTEN_SHAPE[t])].value is not None
+               and not (isinstance(table[(t, WRITTEN_SHAPE[t])].value, ast.Constant) and table[(t, WRITTEN_SHAPE[t])].value.value is None))
+    if table[('SOMETHING_ELSE', 'digits')].kind == 'return' and table[('SOMETHING_ELSE', 'digits')].value is not None:
+        dset.add('SOMETHING_ELSE')
     df = repo.func('xtuml.meta:MetaClass.default_value')
-    fset = _literal_chain(df, {'uname'})
+    fset = _default_value_types(df)
     gt = repo.func(L + 'guess_type_name')
     gset = set(n.value.value for n in ast.walk(gt) if isinstance(n, ast.Return) and isinstance(n.value, ast.Constant))
     isn = repo.func('xtuml.meta:_is_null')
@@ -93,7 +163,8 @@ def types(ctx):
     # normalisation of the type name before the table lookups
     r.check(pm.contains('ty = ty.upper()', sv), 'serialize_value looks types up upper-cased', sv, construct=P + 'serialize_value', key='norm-writer',
             msg='serialize_value does not upper-case the type name before the table lookup')
-    r.check(pm.contains('uty = ty.upper()', dv), 'deserialize_value compares types upper-cased', dv, construct=L + 'deserialize_value', key='norm-reader',
+    lower = reader_table_lower(repo)
+    r.check(lower, 'deserialize_value compares types upper-cased', dv, construct=L + 'deserialize_value', key='norm-reader',
             msg='deserialize_value does not upper-case the type name')
     # null values: None is written as the null value of the type, which the reader maps to a value _is_null treats as null
     want_null = {'BOOLEAN': 'False', 'INTEGER': '0', 'REAL': '0.0', 'STRING': "''", 'UNIQUE_ID': '0'}
@@ -208,7 +279,7 @@ def fmt(ctx):
     sv = repo.func(P + 'serialize_value')
     trans = _dict_keys(sv, 'transfer_fn')
     value_alts = set(' '.join(p.syms) for p in g.productions if p.head == 'value')
-    dv = repo.func(L + 'deserialize_value')
+    dv, VAL, table = reader_table(repo)
     for ty in sorted(TYPES):
         lam = trans.get(ty)
         if not isinstance(lam, ast.Lambda):
@@ -256,10 +327,9 @@ def fmt(ctx):
                     r.ok('%s: t_%s (earlier than t_%s) cannot steal the beginning of the written text' % (ty, name, lead), rules[name].fn,
                          construct='%s|%s|%s' % (ty, name, lead))
         # the converter of the matching branch
-        found = False
-        for n in ast.walk(dv):
-            if isinstance(n, ast.If) and src(n.test) == "uty == '%s'" % ty:
-                found = conv in src(ast.Module(body=n.body, type_ignores=[]))
+        WRITTEN_SHAPE = {'BOOLEAN': 'digits', 'INTEGER': 'digits', 'REAL': 'fraction', 'STRING': 'squoted', 'UNIQUE_ID': 'dquoted'}
+        o = table[(ty, WRITTEN_SHAPE[ty])]
+        found = o.kind == 'return' and o.value is not None and pm.match(conv.replace('value', VAL), o.value) is not None
         r.check(found, 'deserialize_value(%s) converts the token text with %s' % (ty, conv), dv, construct=L + 'deserialize_value', key='convert ' + ty,
                 msg='the %s branch of deserialize_value no longer applies `%s` to the token text' % (ty, conv))
     # negative values are re-assembled
@@ -277,11 +347,46 @@ def fmt(ctx):
                 msg='a written value (%s) can start with %r, which the loader treats as a comment' % (what, pc))
     # instance statement layout
     si = repo.func(P + 'serialize_instance')
-    ok = pm.contains("_S = 'INSERT INTO %s VALUES (' % metaclass.kind", si) and any(
-        isinstance(n, ast.For) and src(n.iter) == 'metaclass.attributes' for n in ast.walk(si)) and \
-        pm.contains('s += serialize_value(value, ty)', si) and pm.contains('value = getattr(instance, name)', si)
-    r.check(ok, 'INSERT lists serialize_value(getattr(instance, name), type) for every attribute in declared order', si, construct=P + 'serialize_instance',
-            key='insert-layout', msg='serialize_instance no longer emits one serialized value per declared attribute in order')
+    INST = param_names(si, skip_self=False)[0]
+    ATTRS = 'xtuml.get_metaclass(%s).attributes' % INST
+
+    def attrs(e, s, tr):
+        return [absint.Sym((ast.Name(id='name1', ctx=ast.Load()), ast.Name(id='ty1', ctx=ast.Load()))),
+                absint.Sym((ast.Name(id='name2', ctx=ast.Load()), ast.Name(id='ty2', ctx=ast.Load())))]
+
+    def enum(e, s, tr):
+        start = e.get('_K')
+        k0 = start.value if isinstance(start, ast.Constant) else 0
+        return [absint.Sym((ast.Constant(value=k0 + i), el.value)) for i, el in enumerate(attrs(e, s, tr))]
+
+    def count_cmp(op):
+        def f(e, s, tr):
+            k = e['_K']
+            if isinstance(k, ast.Constant) and isinstance(k.value, int):
+                return op(k.value, 2)
+            return None
+        return f
+    import operator as _o
+    it = absint.Interp(si, [('_K %s len(%s)' % (sym, ATTRS), count_cmp(fn_)) for sym, fn_ in
+                            (('<', _o.lt), ('<=', _o.le), ('==', _o.eq), ('!=', _o.ne), ('>=', _o.ge), ('>', _o.gt))] +
+                       [('len(%s) %s _K' % (ATTRS, sym), count_cmp(fn_)) for sym, fn_ in
+                        (('>', _o.lt), ('>=', _o.le), ('==', _o.eq), ('!=', _o.ne), ('<=', _o.ge), ('<', _o.gt))],
+                       iters=[(ATTRS, attrs), ('enumerate(%s)' % ATTRS, enum), ('enumerate(%s, _K)' % ATTRS, enum)])
+    it.pure_calls = {'serialize_value', 'get_metaclass'}
+    state = {}
+    out, tr = it.run(state)
+    if out.kind != 'return' or out.value is None:
+        raise AnalysisError('%s: serialize_instance does not return its text' % loc(si))
+    seq = emit.flatten(out.value)
+    want = [('lit', 'INSERT INTO '), ('hole', 'xtuml.get_metaclass(%s).kind' % INST), ('lit', ' VALUES (\n    '),
+            ('hole', 'serialize_value(getattr(%s, name1), ty1)' % INST), ('lit', ', -- '), ('hole', 'name1'), ('lit', ' : '), ('hole', 'ty1'),
+            ('lit', '\n    '), ('hole', 'serialize_value(getattr(%s, name2), ty2)' % INST), ('lit', ' -- '), ('hole', 'name2'), ('lit', ' : '),
+            ('hole', 'ty2'), ('lit', '\n);\n')]
+    ok = emit.same(seq, want)
+    r.check(ok, 'INSERT lists serialize_value(getattr(instance, name), type) for every attribute in declared order: ' + emit.show(seq)[:60] + '...',
+            si, construct=P + 'serialize_instance', key='insert-layout',
+            msg='serialize_instance with two attributes writes `%s`; expected one serialized value per declared attribute in order, '
+                'comma-separated, each followed by its `-- name : type` comment' % emit.show(seq))
     pi = repo.func(LD + '._populate_instance_with_positional_arguments')
     ok = any(isinstance(n, ast.For) and src(n.iter) == 'zip(metaclass.attributes, stmt.values)' for n in ast.walk(pi)) and \
         pm.contains('_V = deserialize_value(ty, value)', pi) and pm.contains('inst.__dict__[name] = _V', pi)
@@ -563,15 +668,12 @@ def rop_identity(ctx, am):
                         'the association has its two ends (or phrases) exchanged' % (slots[slot], wp, slot, wp, read.get(wp)))
     # cardinality encoding round trip
     lc = repo.func('xtuml.meta:Link.cardinality')
-    it = absint.Interp(lc, [('self.many', lambda e, s, tr: s['many']), ('self.conditional', lambda e, s, tr: s['cond'])],
-                       [('s = _V', lambda e, s, tr: s.__setitem__('text', e['_V'].value) if isinstance(e['_V'], ast.Constant) else False),
-                        ('s += _V', lambda e, s, tr: s.__setitem__('text', s['text'] + e['_V'].value) if isinstance(e['_V'], ast.Constant) else False)])
+    it = absint.Interp(lc, [('self.many', lambda e, s, tr: s['many']), ('self.conditional', lambda e, s, tr: s['cond'])])
     for many, cond in itertools.product([False, True], repeat=2):
-        st = {'many': many, 'cond': cond, 'text': ''}
+        st = {'many': many, 'cond': cond}
         out, tr = it.run(st)
-        text = st['text']
-        ok = out.kind == 'return' and src(out.value) == 's' and (('M' in text) == many) and (('C' in text) == cond) and \
-            text in ('1', '1C', 'M', 'MC')
+        text = out.value.value if (out.kind == 'return' and isinstance(out.value, ast.Constant) and isinstance(out.value.value, str)) else None
+        ok = text is not None and (('M' in text) == many) and (('C' in text) == cond) and text in ('1', '1C', 'M', 'MC')
         r.check(ok, 'cardinality(many=%d, conditional=%d) = %r decodes to the same flags' % (many, cond, text), lc, construct='xtuml.meta:Link.cardinality',
                 key='card %d %d' % (many, cond), msg='Link.cardinality for many=%s conditional=%s is %r; the loader decodes it with \'M\' in / \'C\' in' % (many, cond, text))
     # the reader accepts exactly these four spellings
